@@ -1,6 +1,9 @@
 package checks
 
 import (
+	shared "github.com/aquilax/hranoprovod-cli/v3"
+	"github.com/aquilax/hranoprovod-cli/v3/resolver"
+
 	"fmt"
 	"math"
 	"math/rand"
@@ -243,6 +246,78 @@ func runC11(c *core.Ctx) {
 				c.Sample(map[string]any{"part": "chains", "case": t.what, "book": bookText(t.b), "limit": t.n, "longest_chain": chain, "cyclic": cyc, "verdicts_seen": sortedKeys(seen)})
 			}
 		})
+	})
+
+	// the resolver value and the book it was made for have separate lives: the book may be filled, grown or
+	// corrected between NewResolver and Resolve, and between two calls of Resolve; the verdict is about the
+	// book as it is when Resolve runs
+	c.RunPart("l3-resolver-lifetime", 10*time.Minute, func(c *core.Ctx) {
+		push := func(db shared.DBNodeMap, rec gen.Recipe) {
+			n := shared.NewParserNode(rec.Name)
+			for _, e := range rec.Ents {
+				n.Elements.Add(e.Name, e.Val.F())
+			}
+			db.Push(shared.NewDBNodeFromNode(n))
+		}
+		verdict := func(what string, b gen.Book, n int, err error) {
+			chain, cyc := model.Chain(b)
+			wantErr := cyc || chain >= n
+			c.Eval(1)
+			c.Count("resolver_lifetime_cases", 1)
+			c.Nontrivial("lifetime", what, bookText(b), fmt.Sprint(n))
+			rep := map[string]any{"sequence": what, "book_when_resolve_runs": bookText(b), "max_depth": n, "longest_chain": chain, "cyclic": cyc, "returned": fmt.Sprint(err)}
+			switch {
+			case wantErr && err == nil:
+				c.Violation("Resolver.Resolve|stale-verdict-accepts", fmt.Sprintf("%s: chain %d (cyclic %v) accepted with limit %d", what, chain, cyc, n), rep)
+			case !wantErr && err != nil:
+				c.Violation("Resolver.Resolve|stale-verdict-rejects", fmt.Sprintf("%s: chain %d rejected with limit %d: %v", what, chain, n, err), rep)
+			}
+		}
+		r := c.Rng("lifetime", 0)
+		for n := 2; n <= 7; n++ {
+			for l := n - 1; l <= n+1; l++ {
+				for rep := 0; rep < c.N(6, 30); rep++ {
+					b := chainBook(l, r)
+					order := r.Perm(len(b))
+					// (a) the book is filled after the resolver was made
+					db := shared.NewDBNodeMap()
+					rs := resolver.NewResolver(db, resolver.Config{MaxDepth: n})
+					for _, i := range order {
+						push(db, b[i])
+					}
+					verdict("NewResolver on an empty book, book filled, Resolve", b, n, rs.Resolve())
+					// (b) a legal book is resolved, then grows beyond the limit, and is resolved again
+					if l >= 2 {
+						short := b[1:] // chain of l-1 references
+						db2 := buildDB(short, r.Perm(len(short)))
+						rs2 := resolver.NewResolver(db2, resolver.Config{MaxDepth: n})
+						err0 := rs2.Resolve()
+						verdict("Resolve on the shorter book", short, n, err0)
+						if err0 == nil {
+							// the shorter book is resolved in place by now: each of its recipes refers to basic names only
+							flat := gen.Book{b[0]}
+							for _, rec := range short {
+								flat = append(flat, gen.Recipe{Name: rec.Name, Ents: []gen.Ent{{Name: "x", Val: gen.Half(2)}}})
+							}
+							push(db2, b[0])
+							verdict("book grown by its head recipe after a first Resolve, Resolve again", flat, n, rs2.Resolve())
+						}
+						// grown before the first Resolve
+						db4 := buildDB(short, r.Perm(len(short)))
+						rs4 := resolver.NewResolver(db4, resolver.Config{MaxDepth: n})
+						push(db4, b[0])
+						verdict("NewResolver on the shorter book, head recipe added, Resolve", b, n, rs4.Resolve())
+					}
+					// (c) a cyclic declaration is replaced by a correct one before Resolve
+					cyc := append(gen.Book{}, b...)
+					cyc[len(cyc)-1] = gen.Recipe{Name: b[len(b)-1].Name, Ents: []gen.Ent{{Name: b[0].Name, Val: gen.Half(2)}}}
+					db3 := buildDB(cyc, r.Perm(len(cyc)))
+					rs3 := resolver.NewResolver(db3, resolver.Config{MaxDepth: n})
+					push(db3, b[len(b)-1])
+					verdict("NewResolver on a cyclic book, cycle removed, Resolve", b, n, rs3.Resolve())
+				}
+			}
+		}
 	})
 
 	// termination with a huge limit: own part, because the expected failure mode is process death
